@@ -71,6 +71,9 @@ var vocab = []string{
 	"directory", "extract", "show", "size", "folder", "remove", "install", "package", "server", "log",
 	// equal-length siblings: they tie in fuzzy ranking for a shared misspelling
 	"archived", "archiver", "packaged", "packages",
+	// words the NLP layer treats specially: synonyms listed under several head words, actions, targets
+	"unzip", "gunzip", "untar", "expand", "decompress", "unpack", "make", "build", "generate", "compile", "data", "content",
+	"config", "interface", "address", "transfer", "upload", "download", "view", "display", "read", "cat", "locate", "backup", "task", "job", "running",
 }
 
 var tools = []string{"tar", "zip", "git", "docker", "find", "grep", "du", "df", "ls", "cp", "mv", "rm", "qm", "npm", "curl", "kubectl"}
